@@ -103,16 +103,20 @@ fn random_req(rng: &mut Rng, n: u32) -> Req {
     let len = *rng.pick(&[0usize, 1, 1, 2, 3, 21, 24]);
     let cons = rng.chance(5, 6);
     let a = random_list(rng, n, len, cons);
+    // configuration requests mostly get short lists; now and then the long one, whose repeated
+    // literals shrink to at most n distinct ones inside enumerate (key = set of literals)
+    let keep_long = a.len() > 3 && rng.coin();
+    let short = |a: Vec<i32>, k: usize| -> Vec<i32> { if keep_long { a } else { a.into_iter().take(k).collect() } };
     match rng.below(12) {
         0 | 1 => Req::Count(a),
         2 => Req::Sat(a),
         3 => Req::Core(a.into_iter().take(2).collect()),
         4 => Req::Table,
-        5 => Req::Sample(a.into_iter().take(2).collect(), 1 + rng.below(8) as usize, rng.below(50)),
+        5 => Req::Sample(short(a, 2), 1 + rng.below(8) as usize, rng.below(50)),
         6 => Req::Atomic(a.into_iter().take(1).collect()),
         7 => Req::Save,
         8 => Req::Marked(a),
-        9 | 10 => Req::Enum(a.into_iter().take(2).collect(), 1 + rng.below(4) as usize),
+        9 | 10 => Req::Enum(short(a, 2), 1 + rng.below(4) as usize),
         _ => Req::Twise(1 + rng.below(2) as usize),
     }
 }
